@@ -36,9 +36,52 @@ class C07(PropBase):
         r = rng.random()
         if r < 0.5:
             return self.rx_family(rng)
-        if r < 0.85:
+        if r < 0.8:
             return self.tx_family(rng)
-        return self.tx_midblock_wait_family(rng)
+        if r < 0.9:
+            return self.tx_midblock_wait_family(rng)
+        return self.tx_standby_family(rng)
+
+    # ------------------------------------------------------------------ TX, First Frame parked by the rate limiter: N_Bs counts from its transmission
+    def tx_standby_family(self, rng):
+        a, _ = gen.rand_addr_pair(rng, mode=rng.choice([0, 0, 1, 4, 6]), asym_prob=0)
+        T_ms = rng.choice([50, 100, 500])
+        T = T_ms * 1000000
+        w = rng.choice([1.0, 2.0])                   # limiter window well above N_Bs
+        params = {'rx_flowcontrol_timeout': T_ms, 'rate_limit_enable': True, 'rate_limit_window_size': w,
+                  'rate_limit_max_bitrate': int(16 * 8 / w)}            # two 8-byte frames per window
+        ops = [{'op': 'layer', 'i': 0, 'addr': a, 'params': params}]
+        pre = gen.prefix_len(a, 'tx')
+        # two Single Frames use up the window, then a multi-frame message: its First Frame waits in standby for about w seconds
+        ops.append({'op': 'send', 'i': 0, 'id': 1, 'data': gen.rand_payload(rng, 6 - pre)})
+        ops.append({'op': 'send', 'i': 0, 'id': 2, 'data': gen.rand_payload(rng, 6 - pre)})
+        ops.append({'op': 'send', 'i': 0, 'id': 3, 'data': gen.rand_payload(rng, 12)})
+        ops.append({'op': 'process', 'i': 0})
+        wns = int(w * 10**9)
+        # idle passes while the First Frame is parked, for longer than N_Bs: no FlowControlTimeoutError may be reported
+        step = rng.choice([T // 2 + 1000, T + 1000, T // 3])
+        acc = 0
+        while acc < wns + 20000000:
+            ops.append({'op': 'tick', 'dt': step})
+            acc += step
+            ops.append({'op': 'process', 'i': 0})
+        # the First Frame is out by now (window passed); the Flow Control arrives T - delta after it at the latest
+        fidc, ext, cts = fc_frame(a, 0, 0)
+        late = rng.random() < 0.4
+        delta = max(1000, rng.choice([1000, T // 10]))
+        # time of the First Frame = first pass at which the oldest slot expired: between wns and wns + step after the start;
+        # the passes above overshoot it by less than `step` + 20 ms, so only a margin-safe gap is used for the in-time case
+        if late:
+            ops.append({'op': 'tick', 'dt': T + delta})
+            ops.append({'op': 'process', 'i': 0})
+            expect_at = len(ops) - 1
+        ops.append({'op': 'frame', 'i': 0, 'id': fidc, 'ext': ext, 'data': cts})
+        ops.append({'op': 'process', 'i': 0})
+        for _ in range(6):
+            ops.append({'op': 'tick', 'dt': wns + 6000000})
+            ops.append({'op': 'process', 'i': 0})
+        return {'ops': ops, 'meta': {'family': 'txstandby', 'T': T, 'late': late, 'idle': 0, 'gap_at': 200, 'wait': False, 'late_wait': False,
+                                     'expect_timeout': late, 'expect_at': None, 'rbs': 0, 'wft': 0, 'step': step}}
 
     # ------------------------------------------------------------------ TX, Wait frame received mid-block (sender paced by STmin)
     def tx_midblock_wait_family(self, rng):
@@ -246,6 +289,32 @@ class C07(PropBase):
         fc_to = [(r.k, e['t']) for r in recs for e in r.events if e['k'] == 'err' and e['name'] == 'FlowControlTimeoutError']
         delivered = [e['data'] for r in recs for e in r.events if e['k'] == 'deliver']
         dones = [(e['id'], e['ok']) for r in recs for e in r.events if e['k'] == 'done']
+        if meta['family'] == 'txstandby':
+            # the deadline runs from the moment the First Frame is handed to the CAN layer, not from the moment it was parked
+            t_ff = None
+            prefix_len = None
+            for r in recs:
+                for e in r.events:
+                    if e['k'] == 'tx' and t_ff is None:
+                        body = e['data']
+                        # third data frame emitted = the First Frame of request 3 (two Single Frames precede it)
+                        pass
+            txs = [(r.k, e['t'], e['data']) for r in recs for e in r.events if e['k'] == 'tx']
+            ff = [x for x in txs if len(txs) >= 3 and x is txs[2]]
+            if not ff:
+                out.append(('tx_iff', 'the parked First Frame was never emitted (frames: %d)%s' % (len(txs), ' after FlowControlTimeoutError while still parked' if fc_to else '')))
+                return out[:3]
+            t_ff = ff[0][1]
+            early = [t for (_, t) in fc_to if t <= t_ff + meta['T']]
+            if early:
+                out.append(('tx_iff', 'FlowControlTimeoutError at %d ns although the First Frame went out at %d ns and N_Bs is %d ns' % (early[0], t_ff, meta['T'])))
+            if meta['late'] and not fc_to:
+                out.append(('tx_iff', 'no FlowControlTimeoutError although no Flow Control arrived within N_Bs of the First Frame'))
+            if not meta['late'] and ((3, True) not in dones):
+                cts_t = [e['t'] for r in recs for e in r.events if e['k'] == 'rx']
+                if cts_t and cts_t[0] - t_ff <= meta['T'] and not fc_to:
+                    out.append(('tx_iff', 'a ContinueToSend processed %d ns after the First Frame (N_Bs %d ns) was not honoured: outcomes %s' % (cts_t[0] - t_ff, meta['T'], dones)))
+            return out[:3]
         if meta['family'] == 'rx':
             if fc_to:
                 out.append(('idle_quiet', 'FlowControlTimeoutError reported although nothing is being transmitted'))
@@ -283,6 +352,8 @@ class C07(PropBase):
         m = sc['meta']
         if m['family'] == 'rx':
             return ('rx', m['T'], m['ending'], m['g'], m['late'], m['idle'], m['nframes'])
+        if m['family'] == 'txstandby':
+            return ('txstandby', m['T'], m['late'], m['step'])
         return ('tx', m['T'], m['gap_at'], m['late'], m['idle'], m['wait'], m['late_wait'], m['rbs'])
 
     def tally(self, dist, sc, lines_in, impl_out):
